@@ -1,0 +1,158 @@
+//go:build verif
+
+package dxil
+
+// Verification hooks (build tag `verif`): thin drivers around the internal
+// bit-level writer and the DXBC container builder, so that an external
+// harness can run them on generated operation sequences and part lists.
+// Add-only; not part of the public API.
+
+import (
+	"fmt"
+
+	"github.com/gogpu/naga/dxil/internal/bitcode"
+	"github.com/gogpu/naga/dxil/internal/container"
+	"github.com/gogpu/naga/ir"
+)
+
+// VerifBitOp is one call on bitcode.Writer.
+//
+//	Op = "bits"   WriteBits(uint32(A), uint(B))
+//	     "fixed"  WriteFixed(A, uint(B))
+//	     "vbr"    WriteVBR(A, uint(B))
+//	     "char6"  WriteChar6(byte(A))
+//	     "align"  Align32()
+//	     "enter"  EnterBlock(uint(A), uint(B))
+//	     "exit"   ExitBlock()
+//	     "record" EmitRecord(uint(A), Vals)
+//	     "blob"   EmitRecordWithBlob(uint(A), Vals, Blob)
+type VerifBitOp struct {
+	Op   string
+	A    uint64
+	B    uint64
+	Vals []uint64
+	Blob []byte
+}
+
+// VerifBitcodeRun creates a Writer with the given abbreviation width, applies
+// ops in order and returns Bytes() together with Len() observed after each op.
+func VerifBitcodeRun(abbrevWidth uint, ops []VerifBitOp) (out []byte, lens []int, err error) {
+	w := bitcode.NewWriter(abbrevWidth)
+	lens = make([]int, 0, len(ops))
+	for i := range ops {
+		op := &ops[i]
+		switch op.Op {
+		case "bits":
+			w.WriteBits(uint32(op.A), uint(op.B)) //nolint:gosec // harness-controlled
+		case "fixed":
+			w.WriteFixed(op.A, uint(op.B))
+		case "vbr":
+			w.WriteVBR(op.A, uint(op.B))
+		case "char6":
+			w.WriteChar6(byte(op.A)) //nolint:gosec // harness-controlled
+		case "align":
+			w.Align32()
+		case "enter":
+			w.EnterBlock(uint(op.A), uint(op.B))
+		case "exit":
+			w.ExitBlock()
+		case "record":
+			w.EmitRecord(uint(op.A), op.Vals)
+		case "blob":
+			w.EmitRecordWithBlob(uint(op.A), op.Vals, op.Blob)
+		default:
+			return nil, nil, fmt.Errorf("unknown op %q", op.Op)
+		}
+		lens = append(lens, w.Len())
+	}
+	return w.Bytes(), lens, nil
+}
+
+// VerifEncodeSignedVBR exposes bitcode.EncodeSignedVBR.
+func VerifEncodeSignedVBR(v int64) uint64 { return bitcode.EncodeSignedVBR(v) }
+
+// VerifEncodeChar6 exposes bitcode.EncodeChar6 (panics on a non-char6 byte).
+func VerifEncodeChar6(ch byte) uint32 { return bitcode.EncodeChar6(ch) }
+
+// VerifIsChar6String exposes bitcode.IsChar6String.
+func VerifIsChar6String(s string) bool { return bitcode.IsChar6String(s) }
+
+// VerifPart is one container part to add.
+//
+//	Kind = "raw"      AddRawPart(FourCC, Data)
+//	       "dxil"     AddDXILPart(ShaderKind, Major, Minor, Data)
+//	       "stat"     AddSTATPart(ShaderKind, Major, Minor, Data)
+//	       "features" AddFeaturesPart(Features)
+//	       "hash"     AddHashPart()
+type VerifPart struct {
+	Kind       string
+	FourCC     uint32
+	Data       []byte
+	ShaderKind uint32
+	Major      uint32
+	Minor      uint32
+	Features   uint64
+}
+
+// VerifContainerBuild builds a container from parts and returns Bytes() after
+// applying the post steps in order: "shaderhash" (WriteShaderHashPart),
+// "bypass" (SetBypassHash), "retail" (ComputeRetailHash).
+func VerifContainerBuild(parts []VerifPart, post []string) ([]byte, error) {
+	c := container.New()
+	for i := range parts {
+		p := &parts[i]
+		switch p.Kind {
+		case "raw":
+			c.AddRawPart(p.FourCC, p.Data)
+		case "dxil":
+			c.AddDXILPart(p.ShaderKind, p.Major, p.Minor, p.Data)
+		case "stat":
+			c.AddSTATPart(p.ShaderKind, p.Major, p.Minor, p.Data)
+		case "features":
+			c.AddFeaturesPart(p.Features)
+		case "hash":
+			c.AddHashPart()
+		default:
+			return nil, fmt.Errorf("unknown part kind %q", p.Kind)
+		}
+	}
+	out := c.Bytes()
+	for _, s := range post {
+		switch s {
+		case "shaderhash":
+			if err := container.WriteShaderHashPart(out); err != nil {
+				return nil, err
+			}
+		case "bypass":
+			container.SetBypassHash(out)
+		case "retail":
+			container.ComputeRetailHash(out)
+		default:
+			return nil, fmt.Errorf("unknown post step %q", s)
+		}
+	}
+	return out, nil
+}
+
+// VerifRetailHash returns the retail (modified MD5) digest of data exactly as
+// ComputeRetailHash computes it over containerData[20:].
+func VerifRetailHash(data []byte) [16]byte {
+	buf := make([]byte, 20+len(data))
+	copy(buf[20:], data)
+	container.ComputeRetailHash(buf)
+	var d [16]byte
+	copy(d[:], buf[4:20])
+	return d
+}
+
+// VerifFourCCs returns the FourCC codes the container package defines.
+func VerifFourCCs() map[string]uint32 {
+	return map[string]uint32{
+		"DXBC": container.FourCCDXBC, "DXIL": container.FourCCDXIL, "SFI0": container.FourCCSFI0,
+		"HASH": container.FourCCHASH, "ISG1": container.FourCCISG1, "OSG1": container.FourCCOSG1,
+		"PSV0": container.FourCCPSV0, "PSG1": container.FourCCPSG1, "STAT": container.FourCCSTAT,
+	}
+}
+
+// VerifStageKind exposes stageToContainerKind for an ir.ShaderStage number.
+func VerifStageKind(stage int) uint32 { return stageToContainerKind(ir.ShaderStage(stage)) }
